@@ -1,15 +1,24 @@
 // C17: constructSurrogate checkpoints (sequential mode). Plain program (no symbolic data): it is run under strace to record the
 // file-system operation trace, and run again on materialised post-crash directories.
-// args: <grid spec> <budget> <batch> <workdir>     checkpoint file: <workdir>/ck ; model calls are logged by write(2) to <workdir>/calls.log
+// args: <grid spec> <budget> <batch>[p] <workdir>   (batch followed by 'p': the caller's grid is already in construction and holds a parked sample, e.g. read from an earlier interrupted run)     checkpoint file: <workdir>/ck ; model calls are logged by write(2) to <workdir>/calls.log
 #include "TasmanianAddons.hpp"
 #include "tgrid.hpp"
 #include <fcntl.h>
+#include <cstring>
 #include <unistd.h>
 
 int main(int argc, char **argv){
   GridSpec g = parseSpec(argv[1]); size_t budget = (size_t) atoi(argv[2]), batch = (size_t) atoi(argv[3]); std::string dir = argv[4];
   int d = g.dims, outs = g.outputs;
   TasmanianSparseGrid grid; makeGrid(grid, g);
+  if (strchr(argv[3], 'p')){
+    // a sample far down the hierarchy / far out in the tensor order: it cannot be connected to the grid yet and stays parked in the construction data,
+    // so every checkpoint image carries a non-empty list of parked samples
+    grid.beginConstruction();
+    GridSpec deep = g; deep.depth = g.depth + 2; deep.ll.clear(); TasmanianSparseGrid dg; makeGrid(dg, deep); std::vector<double> dp = dg.getPoints(); int nd = dg.getNumPoints();
+    std::vector<double> x(dp.begin() + (size_t) (nd - 1) * d, dp.begin() + (size_t) nd * d), y(outs); for (int k=0;k<outs;k++) y[k] = SymModel::dflt(x, k);
+    grid.loadConstructedPoints(x, y);
+  }
   int logfd = open((dir + "/calls.log").c_str(), O_WRONLY | O_CREAT | O_APPEND, 0644);
   int calls = 0;
   auto model = [&](std::vector<double> const &x, std::vector<double> &y, size_t)->void{
